@@ -186,6 +186,13 @@ Definition pair_model (c : list pdecl * (list (str * value) * list (str * value)
             dict(decls=[d(), d(name='b', cfg='b', default=[2], dropdef=True)], c1={'a': 1, 'b': 2}, c2={'a': 1, 'b': 3}),
             dict(decls=[d(), d(name='b', cfg='b')], c1={'a': 'x###b=y', 'b': 'z'}, c2={'a': 'x', 'b': 'y###b=z'}),
             dict(decls=[d(name='lr'), d(name='b', cfg='b', ignore=True)], c1={'lr': 1, 'b': 1}, c2={'lr': 1, 'b': 2}),
+            # long values that differ far from both ends of their text
+            dict(decls=[d()], c1={'a': list(range(400))}, c2={'a': list(range(200)) + [-1] + list(range(201, 400))}),
+            dict(decls=[d()], c1={'a': {f'k{i:02d}': {'v': i} for i in range(60)}},
+                 c2={'a': {f'k{i:02d}': {'v': i if i != 30 else -1} for i in range(60)}}),
+            dict(decls=[d()], c1={'a': 'x' * 1500 + 'a' + 'y' * 1500}, c2={'a': 'x' * 1500 + 'b' + 'y' * 1500}),
+            dict(decls=[d(), d(name='b', cfg='b')], c1={'a': [0.5] * 300, 'b': [[i] for i in range(150)]},
+                 c2={'a': [0.5] * 300, 'b': [[i] for i in range(75)] + [[75, 0]] + [[i] for i in range(76, 150)]}),
         ]
 
     def gen(self, rng, tier):
@@ -472,6 +479,10 @@ class ObjectPairs(Suite):
                dict(cls='AutoC', a1={'step': 1, 'debug': 1}, a2={'step': 1, 'debug': 2}),
                dict(cls='AutoA', a1={'a': ["x'", 'y']}, a2={'a': ["x', 'y"]}),
                dict(cls='AutoA', a1={'a': 'a\\nb'}, a2={'a': 'a\nb'})]
+        # a class edited and reloaded within one process (notebook autoreload): the class object is new, the name is not
+        out += [dict(redefined=True, first=['a'], second=['a', 'b'], a1={'a': 1, 'b': 1}, a2={'a': 1, 'b': 2}),
+                dict(redefined=True, first=['a', 'b'], second=['b', 'c', 'a'], a1={'a': 1, 'b': 1, 'c': [1]}, a2={'a': 1, 'b': 1, 'c': [2]}),
+                dict(redefined=True, first=['x'], second=['y'], a1={'y': 'p'}, a2={'y': 'q'})]
         for _ in range(60 if tier == 'quick' else 2000):
             cls = rng.choice(['AutoA', 'AutoB', 'AutoC'])
             names = {'AutoA': ['a', 'b', 'verbose'], 'AutoB': ['x', 'y', 'debug'],
@@ -489,6 +500,27 @@ class ObjectPairs(Suite):
         from taskchain.parameter import Parameter, ParameterRegistry
         from ..values import filtered_auto_args
         texts, kept = [], []
+        if case.get('redefined'):
+            import sys, types
+            m = types.ModuleType('tcv_redef')
+            sys.modules['tcv_redef'] = m
+            try:
+                def define(names):
+                    src = ('from taskchain.parameter import AutoParameterObject\nclass Reloaded(AutoParameterObject):\n'
+                           f'    def __init__(self, {", ".join(names)}):\n' + ''.join(f'        self.{n} = {n}\n' for n in names))
+                    exec(compile(src, 'tcv_redef', 'exec'), m.__dict__)
+                    return m.Reloaded
+                old = define(case['first'])
+                _ = old(**{n: 0 for n in case['first']}).repr()
+                new = define(case['second'])
+                for args in (case['a1'], case['a2']):
+                    reg = ParameterRegistry([Parameter('p')])
+                    reg.set_values({'p': new(**args)})
+                    texts.append(reg.repr)
+                    kept.append(json.dumps(sorted(args.items())))
+                return dict(texts=texts, kept=kept)
+            finally:
+                sys.modules.pop('tcv_redef', None)
         for args in (case['a1'], case['a2']):
             spec = {'__auto__': case['cls'], 'args': args}
             reg = ParameterRegistry([Parameter('p')])
@@ -501,7 +533,7 @@ class ObjectPairs(Suite):
         if 'unexpected_exception' in obs:
             return f'unexpected exception {obs["unexpected_exception"]}: {obs["text"]}'
         if obs['kept'][0] != obs['kept'][1] and obs['texts'][0] == obs['texts'][1]:
-            return (f'{case["cls"]}: arguments {json.dumps(case["a1"])} and {json.dumps(case["a2"])} differ in what the class '
+            return (f'{case.get("cls", "class redefined under its name")}: arguments {json.dumps(case["a1"])} and {json.dumps(case["a2"])} differ in what the class '
                     f'persists, yet the parameter text is {obs["texts"][0]!r} for both')
         return None
 
